@@ -140,7 +140,22 @@ def close_pool():
 
 
 def run_impl_many(flavor, cases, timeout=6):
-    return pool().map(_impl_worker, [(flavor, c, timeout) for c in cases], chunksize=4)
+    """run every case on the real engine in the worker pool; a worker that stops answering (a hang the
+    in-process watchdog could not unwind) makes the whole batch fall back to one-by-one execution"""
+    args = [(flavor, c, timeout) for c in cases]
+    budget = 60 + (timeout + 1) * (len(cases) / 4 + 1)
+    try:
+        return pool().map_async(_impl_worker, args, chunksize=4).get(budget)
+    except mp.TimeoutError:
+        close_pool()
+        out = []
+        for a in args:
+            try:
+                out.append(pool().apply_async(_impl_worker, (a,)).get(timeout * 3 + 10))
+            except mp.TimeoutError:
+                close_pool()
+                out.append(("hang", None))
+        return out
 
 
 def run_model_many(flavor, cases, chunk=200):
